@@ -5,7 +5,13 @@ every slot the schema's publish / sign / revoke key names become the bundle's ke
 flags 257 + revoked KSKs with flags 385 — exactly what sign_bundles() assembles) and one signature per signing
 key.  Sources of schemas: the seven example schemas of /repo/config/ksrsigner.yaml (every ordered pair, three
 ways of mapping the role names onto 2..3 key identifiers) and custom families that drop / revoke a key at slot j.
-Safety periods sit on the lattice around the decisive differences.  Three verdicts are compared:
+Safety periods sit on the lattice around the decisive differences.  IDENTIFIER RELATIONS (`ID_RELATIONS`): the rules speak of
+"the key" by its identifier and compare identifiers for equality; the families that turn on "revoked / published / signs"
+(among them: the co-signer of one / of two revoked keys vanishes), every ordered pair of example schemas and random
+four-role schemas are therefore also spelled with identifiers that are DISTINCT but related as strings — one a proper prefix /
+suffix / inner substring of another, differing only in case, in the last character, in a blank at an end, anagrams, numbered
+labels (ksk1 / ksk10), the empty identifier, an identifier that is a piece of a ", "-joined (or repr) listing of the others,
+NFC vs NFD — under every assignment of the related identifiers to the roles.  Three verdicts are compared:
   * check_last_skr_and_new_skr() of /repo (and each half on its own),
   * the model driver (`check_last_skr_and_new_skr`, `safety_check`),
   * `region()` below, transliterated from the C09 statement.
@@ -70,7 +76,7 @@ def slot(publish: list[str], sign: list[str], revoke: list[str] | None = None) -
 
 def custom_schemas(n: int = 9) -> dict[str, Schema]:
     """Families that drop / revoke a key at slot j (1-based), over the roles cur / next / third."""
-    c, x, t = "ksk_current", "ksk_next", "ksk_third"
+    c, x, t, f = "ksk_current", "ksk_next", "ksk_third", "ksk_fourth"
     out: dict[str, Schema] = {}
     for j in range(1, n + 1):
         # cur signs up to slot j-1, then vanishes for good (non-revoked signer disappears)
@@ -91,14 +97,49 @@ def custom_schemas(n: int = 9) -> dict[str, Schema]:
         out[f"gap-right-after-signing:{j}"] = [slot([c, x], [c, x]) if i == j - 1 else (slot([x], [x]) if i == j else slot([c, x], [x])) for i in range(1, n + 1)]
         # three keys: third joins at slot j and takes over signing at the last slot
         out[f"third-joins:{j}"] = [slot([c, x] + ([t] if i >= j else []), [t] if (i == n and j <= n) else [c]) for i in range(1, n + 1)]
+        # TWO revoked keys (cur, next) in slot j whose co-signer (third) signs only there and vanishes afterwards; a fourth key carries on
+        out[f"co-signer-of-two-revoked-vanishes:{j}"] = [slot([c, x, t, f], [f]) if i < j else (slot([t, f], [c, x, t, f], [c, x]) if i == j else slot([f], [f])) for i in range(1, n + 1)]
     return out
 
 
 ROLEMAPS = {
-    "same": {"ksk_current": "KA", "ksk_next": "KB", "ksk_third": "KC"},
-    "shifted": {"ksk_current": "KB", "ksk_next": "KC", "ksk_third": "KA"},
-    "swapped": {"ksk_current": "KB", "ksk_next": "KA", "ksk_third": "KC"},
+    "same": {"ksk_current": "KA", "ksk_next": "KB", "ksk_third": "KC", "ksk_fourth": "KD"},
+    "shifted": {"ksk_current": "KB", "ksk_next": "KC", "ksk_third": "KA", "ksk_fourth": "KD"},
+    "swapped": {"ksk_current": "KB", "ksk_next": "KA", "ksk_third": "KC", "ksk_fourth": "KD"},
 }
+
+# IDENTIFIER RELATIONS.  The rules compare key identifiers for EQUALITY ("published", "revoked", "signs"); identifiers that are
+# distinct but related as strings must behave exactly like unrelated ones.  Each entry: four distinct identifiers, the first
+# two (or three) carrying the relation; every assignment of them to the roles cur / next / third is run (both directions of
+# an asymmetric relation, each key in the revoked, the signing and the vanishing position).
+ID_RELATIONS: dict[str, tuple[str, str, str, str]] = {
+    "prefix": ("KC2016", "KC2016b", "KC2020", "KD"),  # KC2016 is a proper prefix of KC2016b
+    "suffix": ("C2016", "KC2016", "KC2020", "KD"),  # … a proper suffix
+    "inner": ("C201", "KC2016", "KX9", "KD"),  # … an inner substring
+    "case": ("kc2016", "KC2016", "Kc2016", "KD"),  # differ only in case
+    "trailing": ("KC2016a", "KC2016b", "KC2016", "KD"),  # differ only in the last character (and their common prefix)
+    "anagram": ("KC2016", "KC2061", "KC6120", "KD"),  # same characters, other order
+    "digits": ("ksk1", "ksk10", "ksk01", "KD"),  # numbered labels
+    "empty": ("", "KC2016", "KX9", "KD"),  # the empty identifier is a substring of everything
+    "blank": ("KC2016", "KC2016 ", " KC2016", "KD"),  # differ by a blank at either end
+    # the identifier IS a piece of a listing of the others (", " / "," / " " joined, a Python list's repr)
+    "listing-comma-blank": ("KA", "KB", "A, K", "KD"),
+    "listing-comma": ("KA", "KB", "A,K", "KD"),
+    "listing-blank": ("KA", "KB", "A K", "KD"),
+    "listing-repr": ("KA", "KB", "', '", "KD"),
+    "nfc-nfd": ("K\u00e9", "Ke\u0301", "Ke", "KD"),  # canonically equivalent, not equal
+}
+ROLES4 = ["ksk_current", "ksk_next", "ksk_third", "ksk_fourth"]
+
+
+def relation_maps() -> dict[str, dict[str, str]]:
+    """name -> role map, for every relation x every assignment of its first three identifiers to cur / next / third."""
+    out: dict[str, dict[str, str]] = {}
+    for rel, ids in ID_RELATIONS.items():
+        assert len(set(ids)) == 4, rel
+        for pi, perm in enumerate(itertools.permutations(range(3))):
+            out[f"{rel}/{pi}"] = {ROLES4[k]: ids[perm[k]] for k in range(3)} | {ROLES4[3]: ids[3]}
+    return out
 
 
 def build(schema: Schema, roles: dict[str, str], first_inc: int, rid: str, ps: int, rs: int, *, slots: range | None = None, zsk_shift: int = 0, revoked_flags: int = 385) -> Any:
@@ -210,6 +251,23 @@ def scenarios(r: Any, tier: str) -> list[Pair]:
                 for rs in (P28, 200 * DAY_US, 0):
                     out.append(Pair(f"custom:{cname}:{pname}:{rname}:{rs // DAY_US}", last, build(cs, ROLEMAPS[rname], prev_first + CYCLE, "q2", P10, rs, zsk_shift=1)))
 
+    # ---- identifier relations: the families that turn on "is this identifier revoked / published / a signer", spelled with related identifiers ----
+    rel_fams = ["co-signer-of-revoked-vanishes", "co-signer-of-two-revoked-vanishes", "revoke-at", "sign-once-at", "revoked-after-signing", "drop-signer-from", "unpublish-from", "gap-right-after-signing"]
+    rel_slots = (1, 2, 5, 9) if tier == "quick" else range(1, 10)
+    for mname, roles in relation_maps().items():
+        for fam in rel_fams:
+            for j in rel_slots:
+                # the previous SKR is spelled with the SAME identifiers (its signer is `cur`); retire window: first bundle only / everything
+                last = build(ex["normal"], roles, START, "q1", LAST_PS, LAST_RS, slots=tail)
+                for rs in (0, 200 * DAY_US):
+                    out.append(Pair(f"idrel:{mname}:{fam}:{j}:{rs // DAY_US}", last, build(cu[f"{fam}:{j}"], roles, prev_first + CYCLE, "q2", P10, rs, zsk_shift=1)))
+    # … and every ordered pair of example schemas under one assignment per relation (publish safety reads signer / published identifiers)
+    for rel in ID_RELATIONS:
+        for pi in (0, 3):
+            roles = relation_maps()[f"{rel}/{pi}"]
+            for (na, a), (nb, b) in itertools.product(ex.items(), ex.items()):
+                out.append(Pair(f"idrel-pair:{rel}/{pi}:{na}>{nb}", build(a, roles, START, "q1", LAST_PS, LAST_RS, slots=tail), build(b, roles, prev_first + CYCLE, "q2", P10, P28, zsk_shift=1)))
+
     # ---- publish-safety lattice: publish point vs. the previous last bundle's inception and expiration ----------------------
     for na, nb, rname in [("normal", "normal", "same"), ("pre-publish", "rollover", "same"), ("rollover", "revoke", "same"), ("revoke", "normal", "shifted"), ("normal", "rollover", "same")]:
         last = prev_of(ex[na], ROLEMAPS["same"])
@@ -262,6 +320,8 @@ def scenarios(r: Any, tier: str) -> list[Pair]:
     # ---- random: random schema per slot over three roles, random periods --------------------------------------------------------------
     n_random = 900 if tier == "quick" else 12000
     roles3 = ["ksk_current", "ksk_next", "ksk_third"]
+    rmaps = relation_maps()
+    rnames = list(rmaps)
     for i in range(n_random):
         n = r.choice([2, 3, 5, 9])
         sch: Schema = []
@@ -276,6 +336,20 @@ def scenarios(r: Any, tier: str) -> list[Pair]:
         ps = r.choice([P10, 0, first_inc - prev_last_inc, first_inc - prev_last_exp, r.randrange(0, 30) * DAY_US])
         rs = r.choice([P28, 0, r.randrange(0, n) * INTERVAL + r.choice([-SEC, 0, SEC]), 200 * DAY_US])
         out.append(Pair(f"random:{i}:{pname}", lastp, build(sch, ROLEMAPS["same"], first_inc, "q2", ps, rs, zsk_shift=1)))
+    # random schemas over FOUR roles spelled with related identifiers (previous SKR spelled alike), revocations more frequent
+    for i in range(n_random // 2):
+        n = r.choice([2, 3, 5, 9])
+        sch = []
+        for _ in range(n):
+            pub = [x for x in ROLES4 if r.random() < 0.6]
+            sign = [x for x in ROLES4 if r.random() < 0.4] or [r.choice(ROLES4)]
+            rev = [x for x in ROLES4 if r.random() < 0.3]
+            sch.append(slot(pub, sign, rev))
+        mname = r.choice(rnames)
+        pname = r.choice(list(ex))
+        lastp = build(ex[pname], rmaps[mname], START, "q1", LAST_PS, LAST_RS, slots=tail)
+        rs = r.choice([P28, 0, 0, r.randrange(0, n) * INTERVAL + r.choice([-SEC, 0, SEC]), 200 * DAY_US])
+        out.append(Pair(f"idrel-random:{i}:{mname}:{pname}", lastp, build(sch, rmaps[mname], prev_first + CYCLE, "q2", r.choice([P10, 0]), rs, zsk_shift=1)))
     return out
 
 
@@ -330,6 +404,8 @@ def judge(res: Result, last: Any, new: Any, case: Any, obs: dict[str, Any], mode
     kind = case.tag.split(":")[0]
     res.count([digest or case.tag, flags])
     res.bump("kind:" + kind)
+    if kind.startswith("idrel"):
+        res.bump("identifier-relation:" + case.tag.split(":")[2 if kind == "idrel-random" else 1].split("/")[0])
     res.bump("flags:" + "".join("1" if flags[f] else "0" for f in FLAGS))
     res.bump("impl:" + ("accept" if "ok" in impl else "{}:{}".format(*next(iter(impl.items())))))
     reg = region(last, new)
@@ -422,7 +498,7 @@ def run_glue_stream(res: Result, pairs: list[Pair], r: Any, tier: str) -> None:
     picked: list[Pair] = []
     for p in pairs:
         head = p.tag.split(":")[0]
-        kind = f"{head}:{r.randrange(30 if tier == 'quick' else 300)}" if head in ("pair", "custom", "random", "publish", "publish-inc", "retire", "revbit") else p.tag
+        kind = f"{head}:{r.randrange(30 if tier == 'quick' else 300)}" if head in ("pair", "custom", "random", "publish", "publish-inc", "retire", "revbit", "idrel", "idrel-pair", "idrel-random") else p.tag
         if kind not in seen:
             seen.add(kind)
             picked.append(p)
@@ -478,7 +554,11 @@ def run(tier: str, driver_ok: bool) -> Result:
         "co-signer of a revoked key vanishes, gap right after signing, third key joins) x j=1..9 x 4 previous schemas x retire periods; publish point on "
         "{-1d,-1s,0,+1s,+1d} around the previous last bundle's inception and expiration (by period and by first inception); retire point on {-1s,0,+1s} "
         "around the inception of slots k-1,k,k+1 with the previous signer unpublished from/at slot k; REVOKE-bit variants of the flags value; degenerate "
-        "shapes; random schemas; every pair under all 4 flag subsets, each half also on its own; entry point: sampled pairs x 4 flag subsets x previous SKR "
+        "shapes; random schemas; IDENTIFIER RELATIONS: 8 families (incl. co-signer of one / of two revoked keys vanishes, over four roles) x slots x retire window, every "
+        "ordered pair of example schemas, and random four-role schemas, spelled with key identifiers that are distinct but related as strings "
+        f"({', '.join(ID_RELATIONS)}: proper prefix / suffix / inner substring, case, last character, anagram, numbered labels, the empty identifier, blanks at the ends, "
+        "pieces of a ', ' / ',' / ' ' / repr listing of the other identifiers, NFC vs NFD) under every assignment of the related identifiers to the roles; "
+        "every pair under all 4 flag subsets, each half also on its own; entry point: sampled pairs x 4 flag subsets x previous SKR "
         "named on the command line / in the configuration / both (configuration names another SKR, opposite verdict where available) / nowhere; "
         "non-trivial = distinct (pair, flags[, previous-SKR source]) input"
     )
